@@ -174,14 +174,19 @@ def check_search_cases(ctx, cases, tmp, stats):
         # independence of strategy / fragmentation / capacity: same (mode, label, input) => same searched bytes
         key = (c["mode"], c["label"], c["input"])
         fragile = truncated or K_LEAD in cls or (c["mode"] == 1 and c["label"] == 4 and reference.endswith(b"\xef\xbf\xbd"))
+        # legacy multi-byte label: whether a dangling lead byte at EOF yields its U+FFFD depends on the call sequence
+        # (LegacyDanglingLeadAtEofDropped), so such inputs are compared modulo one trailing U+FFFD
+        norm = searched
+        if c["mode"] == 1 and c["label"] == 4 and norm.endswith(b"\xef\xbf\xbd"):
+            norm = norm[:-3]
         if fragile:
             pass
-        elif key in groups and groups[key][0] != searched:
+        elif key in groups and groups[key][0] != norm:
             ctx.violation("searched bytes depend on strategy / fragmentation / capacity",
                           dict(kind=1702, case=repr(c), other=repr(groups[key][1]), searched=repr(searched),
                                other_searched=repr(groups[key][0])))
         if not fragile:
-            groups.setdefault(key, (searched, c))
+            groups.setdefault(key, (norm, c))
         # link 2: the model's searched bytes (UTF-16 / identity cases)
         if mv is None:
             ctx.violation("model failed: " + mout[:60], dict(kind=1703, case=repr(c)), nfi=True)
